@@ -172,7 +172,7 @@ pub fn run(args: &Args) {
     let work = args.str("work", "/verif/harness/target/scratch/vtypes");
     let out = args.str("out", &format!("{work}/types_trace.ndjson"));
     std::fs::create_dir_all(&work).unwrap();
-    std::panic::set_hook(Box::new(|_| {}));
+    if std::env::var("VDB_PANIC").is_err() { std::panic::set_hook(Box::new(|_| {})); }
     let mut trace = Trace::create(&out);
     let (mut n_ins, mut n_upd, mut n_read, mut n_multi) = (0u64, 0u64, 0u64, 0u64);
     for run in first..first + runs {
@@ -247,6 +247,22 @@ pub fn run(args: &Args) {
                 let i = rng.below(stored.len() as u64) as usize;
                 let (id, old) = stored[i].clone();
                 match old {
+                    Stored::A(_) if rng.chance(1, 3) => {
+                        // one batch that updates this element through its id field AND inserts a new one (either order)
+                        let upd = Account { db_id: Some(DbId(id)), ..gen_account(&mut rng) };
+                        let fresh = gen_account(&mut rng);
+                        let first_new = rng.chance(1, 2);
+                        let vs = if first_new { vec![fresh.clone(), upd.clone()] } else { vec![upd.clone(), fresh.clone()] };
+                        let qids: Vec<QueryId> = vs.iter().map(|v| QueryId::Id(v.db_id.unwrap_or(DbId(0)))).collect();
+                        let r = with_db_mut(&mut db, |d| d.exec_mut(QueryBuilder::insert().elements(&vs).query()));
+                        trace.emit(insert_event(&qids, &[expected_account(&vs[0]), expected_account(&vs[1])], &r));
+                        if let Ok(r) = &r {
+                            stored[i].1 = Stored::A(upd);
+                            let new_id = r.elements[0].id.0; // the result lists only the elements the query created
+                            stored.push((new_id, Stored::A(Account { db_id: Some(DbId(new_id)), ..fresh })));
+                        }
+                        n_multi += 1;
+                    }
                     Stored::A(_) => {
                         let v = Account { db_id: Some(DbId(id)), ..gen_account(&mut rng) };
                         let r = with_db_mut(&mut db, |d| d.exec_mut(QueryBuilder::insert().element(&v).query()));
